@@ -82,6 +82,35 @@ fn w() { println("w"); }
 `},
 }
 
+// tight loops: loop heads x bodies that contain as little as possible; the only places the
+// cancellation request can be noticed are the loop machinery itself and leaf expressions.
+func init() {
+	heads := []struct{ name, pre, head string }{
+		{"loop", "", "loop"},
+		{"while-literal", "", "while true"},
+		{"while-ident", "let r = true;", "while r"},
+		{"while-call", "", "while t()"},
+		{"while-compare", "let n = 0;", "while n == 0"},
+	}
+	bodies := []struct{ name, body string }{
+		{"empty", ""},
+		{"continue", "continue;"},
+		{"leaf-statement", "1;"},
+		{"ident-statement", "q;"},
+		{"nested-empty-block", "{ };"},
+		{"if-leaf", "if q { }"},
+		{"match-leaf", "match 1 { 1 => { }, _ => { } }"},
+		{"try-empty", "try { } catch e { }"},
+	}
+	for _, h := range heads {
+		for _, b := range bodies {
+			src := "fn t() -> bool { true }\nfn main() {\n    let q = true;\n    " + h.pre + "\n    " + h.head + " { " + b.body + " }\n}\n"
+			c10Progs = append(c10Progs, cancelProg{Name: "tight-" + h.name + "-" + b.name, Infinite: true, TreeOK: true, Source: src})
+		}
+	}
+	c10Progs = append(c10Progs, cancelProg{Name: "tight-loop-in-spawned-core", Infinite: true, Source: "fn main() {\n    spawn w();\n}\nfn w() { let r = true; while r { } }\n"})
+}
+
 const c10MaxLinesAfterCancel = 110 // one 50-instruction quantum per core (at most 2 printing cores)
 
 func lineCount(s string) int { return strings.Count(s, "\n") }
